@@ -57,45 +57,49 @@ def run_unit(unit, workdir, canary=False, extra=None, rlimit=None):
 
 
 def run_canaries(unit, workdir, ur):
-    """Re-submit every posed obligation with an extra `ensures false`: Verus must reject each one."""
+    """Vacuity guard: every posed obligation is re-submitted as an additional copy `<name>__canary` whose
+    postcondition list starts with `false`; Verus must reject each copy. (The copies are added next to the
+    originals, never replace them: a caller must not see a callee whose contract is `false`.)"""
+    import re as _re
     g = ur["gen"]
     lines = ur["text"].split("\n")
-    # insert `false,` clause: find the line "    ensures" in each obligation range, else add before body.
-    edits = []
+    copies = []  # (insert_after_line_index, id, copy_lines)
+    skipped = []
     for o in g.obligations:
         if not o.get("posed"):
             continue
         seg = lines[o["start"] - 1:o["end"]]
-        idx = None
-        for k, ln in enumerate(seg):
-            if ln.strip() == "ensures":
-                idx = o["start"] - 1 + k
-                break
-        if idx is None:
+        vname = o.get("vname")
+        txt = "\n".join(seg)
+        m = _re.search(r"\bfn\s+" + _re.escape(vname) + r"\b", txt)
+        k = next((i for i, ln in enumerate(seg) if ln.strip() == "ensures"), None)
+        # methods of trait impls cannot be duplicated under another name
+        if m is None or k is None or not _re.search(r"\bpub\s+(?:async\s+)?fn\s+" + _re.escape(vname) + r"\b", txt):
+            skipped.append(o["id"])
             continue
-        edits.append((idx, o["id"]))
+        seg2 = list(seg)
+        seg2.insert(k + 1, "        false,  // CANARY")
+        t2 = "\n".join(seg2)
+        t2 = _re.sub(r"\bfn\s+" + _re.escape(vname) + r"\b", "fn " + vname + "__canary", t2, count=1)
+        copies.append((o["end"], o["id"], ["// CANARY-BEGIN " + o["id"]] + t2.split("\n") + ["// CANARY-END " + o["id"]]))
     new = list(lines)
-    for idx, _ in sorted(edits, reverse=True):
-        new.insert(idx + 1, "        false,  // CANARY")
-    path = os.path.join(workdir, unit + ".canary.rs")
+    for end, oid, cl in sorted(copies, key=lambda x: -x[0]):
+        new[end:end] = cl
+    path = os.path.join(workdir, unit + "_canary.rs")
     open(path, "w").write("\n".join(new))
     res = verus.run_verus(path)
-    # recompute ranges: each insertion shifts later lines by one
     obs = []
-    shift_points = sorted(i for i, _ in edits)
-    for o in g.obligations:
-        if not o.get("posed"):
-            continue
-        sh_start = sum(1 for i in shift_points if i + 1 < o["start"] )
-        sh_end = sum(1 for i in shift_points if i + 1 <= o["end"])
-        o2 = dict(o)
-        o2["start"] = o["start"] + sh_start
-        o2["end"] = o["end"] + sh_end
-        obs.append(o2)
+    cur = None
+    for n, ln in enumerate(new, 1):
+        if ln.startswith("// CANARY-BEGIN "):
+            cur = (ln[len("// CANARY-BEGIN "):], n)
+        elif ln.startswith("// CANARY-END ") and cur:
+            obs.append({"id": cur[0], "posed": True, "start": cur[1], "end": n, "vname": None, "props": []})
+            cur = None
     per, stray, frontend, vr = verus.analyse(res, obs)
-    have = set(oid for _, oid in edits)
-    bad = [oid for oid, p in per.items() if oid in have and p["verdict"] == "discharged"]
-    return {"submitted": len(have), "rejected": len(have) - len(bad), "accepted_false": bad, "frontend": frontend}
+    bad = [oid for oid, p in per.items() if p["verdict"] != "failed"]
+    rej = [oid for oid, p in per.items() if p["verdict"] == "failed"]
+    return {"submitted": len(obs), "rejected": len(rej), "accepted_false": bad, "not_canaried_trait_methods": skipped, "frontend": [f["message"] for f in frontend][:2]}
 
 
 def build_bounded():
